@@ -137,12 +137,13 @@ def program(name, variant="san", extra_flags=(), fuzzer=False, sources=None):
     srcs = [os.path.join(CXX, name + ".cc")] + [os.path.join(CXX, s) for s in (sources or [])]
     hdrs = glob.glob(os.path.join(CXX, "*.h"))
     key = _sha(srcs + hdrs, extra=" ".join(extra_flags) + str(fuzzer))
-    out = os.path.join(d, "%s-%s" % (name, key))
+    tag = name + ("+" + "+".join(os.path.basename(x)[:-3] for x in (sources or [])) if sources else "")
+    out = os.path.join(d, "%s-%s" % (tag, key))
     with Lock():
         if os.path.exists(out):
             return out
-        for old in glob.glob(os.path.join(d, name + "-*")):
-            if os.path.basename(old).rsplit("-", 1)[0] == name:
+        for old in glob.glob(os.path.join(d, tag + "-*")):
+            if os.path.basename(old).rsplit("-", 1)[0] == tag:
                 os.unlink(old)
         v = VARIANTS[variant]
         flags = list(v["flags"])
